@@ -2109,8 +2109,14 @@ protected:    // interface for the derived class
     template<class Event>
     struct process_fsm_internal_table
     {
-        typedef typename ::boost::mpl::has_key<processable_events_internal_table,
-                                               typename ::boost::remove_cv<Event>::type>::type is_event_processable;
+        // an internal row is a candidate when its trigger is the event's type, a base class of it, or a Kleene type
+        typedef typename ::boost::mpl::not_< ::boost::is_same<
+            typename ::boost::mpl::find_if<
+                processable_events_internal_table,
+                ::boost::mpl::or_<
+                    ::boost::is_base_of< ::boost::mpl::placeholders::_1, typename ::boost::remove_cv<Event>::type >,
+                    ::boost::msm::is_kleene_event< ::boost::mpl::placeholders::_1> > >::type,
+            typename ::boost::mpl::end<processable_events_internal_table>::type> >::type is_event_processable;
 
         // forward to the correct do_process
         static void process(Event& evt,library_sm* self_,::boost::msm::back::HandledEnum& result)
